@@ -328,7 +328,7 @@ theorem readdir_is_page (s : Layers) (u : UFile) (c : Int) (h : u.off ≠ 0) :
 
 /-- the very first call merges the two layers' complete listings and then pages the same way -/
 theorem readdir_first_is_page (s : Layers) (u : UFile) (c : Int) (h : u.off = 0)
-    (lfs bfs : List ObjId) (hl : (s.l.readdir u.li (-1)).2.1 = some lfs) (hb : (s.b.readdir u.bi (-1)).2.1 = some bfs) :
+    (lfs bfs : List Nat) (hl : (s.l.readdir u.li (-1)).2.1 = some lfs) (hb : (s.b.readdir u.bi (-1)).2.1 = some bfs) :
     let files := u.files ++ UFile.merge (UFile.infosOf (s.l.readdir u.li (-1)).1 lfs) (UFile.infosOf (s.b.readdir u.bi (-1)).1 bfs)
     (u.readdir s c).2.2.1 = some (page files 0 c).2.1 ∧ (u.readdir s c).2.1.files = files ∧
     (u.readdir s c).2.1.off = (page files 0 c).1 := by
